@@ -33,6 +33,7 @@ def draw_spec(ch, prefix="gen"):
         "uncertainty": ch.flip(f"{prefix}.uncertainty", 0.3),
         "nprogs": ch.choose(f"{prefix}.nprogs", 4),
         "cov_interaction": ["additive", "random", "nested"][ch.choose(f"{prefix}.cov_interaction", 3)],
+        "explicit_interaction": ch.flip(f"{prefix}.explicit_interaction", 0.4),
         "dt": [0.25, 0.5, 1.0, 0.125][ch.choose(f"{prefix}.dt", 4)],
         "years": 4 + ch.choose(f"{prefix}.years", 6),
         "scale": [1.0, 0.5, 2.0][ch.choose(f"{prefix}.scale", 3)],
@@ -280,7 +281,11 @@ def build_project(spec, name="generated"):
                 progs_here = {pn: v for pn, v in progs_here.items() if pop in pset.programs[pn].target_pops}
                 if not progs_here:
                     continue
-                pset.covouts[(par, pop)] = at.programs.Covout(par=par, pop=pop, progs=progs_here, cov_interaction=spec["cov_interaction"], baseline=base * 0.5, uncertainty=(0.01 * base if spec["uncertainty"] else None))
+                imp = None
+                if spec.get("explicit_interaction") and len(progs_here) >= 2:
+                    two = list(progs_here.keys())[:2]
+                    imp = f"{two[0]}+{two[1]}={max(progs_here[two[0]], progs_here[two[1]]) * 1.1:.6g}"  # explicit outcome when both programs reach a person
+                pset.covouts[(par, pop)] = at.programs.Covout(par=par, pop=pop, progs=progs_here, cov_interaction=spec["cov_interaction"], imp_interaction=imp, baseline=base * 0.5, uncertainty=(0.01 * base if spec["uncertainty"] else None))
         # round trip through the program book so that the set is exactly what the loader produces
         pset = at.ProgramSet.from_spreadsheet(pset.to_spreadsheet(), framework=fw, data=data, name="default")
         P.progsets.append(pset)
